@@ -19,7 +19,7 @@ from ..report import AnalysisError
 from ..term import Resolver, pmatch, find_all, abstract, anf_of
 
 FLOORS = {"float-arithmetic": 1, "must-pass-through": 4, "slot-binding": 3, "hmc-posterior-args": 5, "hmc-reflect-order": 1,
-          "fold-form": 8, "start-validated": 4, "limit-fsm": 1}
+          "fold-form": 8, "start-validated": 4, "limit-fsm": 1, "reject-leaves-limits": 2}
 UTIL = "inference/mcmc/utilities.py"
 
 
@@ -96,6 +96,9 @@ def run(prog, tier):
     # ---------------------------------------------------------------- limit-fsm
     ob, extra = _limit_fsm(prog)
     obs.append(ob)
+
+    # ---------------------------------------------------------------- a rejected request leaves the limits in force untouched
+    obs.extend(_reject_leaves_state(prog, "Parameter"))
 
     obs.extend(dtype_hazard_obligations(prog, "float-arithmetic", ['inference/mcmc/utilities.py']))
 
@@ -476,6 +479,95 @@ def _start_validated(prog):
     return out
 
 
+def _is_reject_arm(stmts):
+    """An arm that only reports: warn(..) / raise / pass / bare return - and changes nothing."""
+    if not stmts:
+        return False
+    told = False
+    for st in stmts:
+        if isinstance(st, ast.Expr) and isinstance(st.value, ast.Call) and U(st.value.func).split(".")[-1] == "warn":
+            told = True
+        elif isinstance(st, ast.Raise):
+            told = True
+        elif isinstance(st, ast.Pass) or (isinstance(st, ast.Return) and st.value is None):
+            pass
+        elif isinstance(st, ast.Expr) and isinstance(st.value, ast.Constant):
+            pass
+        else:
+            return False
+    return told
+
+
+def _self_writers(prog, ci):
+    """Methods of the class that store into attributes of self (directly or through another such method)."""
+    direct = {}
+    for name, fn in ci.methods.items():
+        sn = fn.args.args[0].arg if fn.args.args else None
+        direct[name] = sn is not None and any(
+            isinstance(t, ast.Attribute) and isinstance(t.value, ast.Name) and t.value.id == sn and isinstance(t.ctx, ast.Store)
+            for t in ast.walk(fn))
+    changed = True
+    while changed:
+        changed = False
+        for name, fn in ci.methods.items():
+            if direct[name] or not fn.args.args:
+                continue
+            sn = fn.args.args[0].arg
+            for n in ast.walk(fn):
+                if isinstance(n, ast.Call) and isinstance(n.func, ast.Attribute) and isinstance(n.func.value, ast.Name) \
+                        and n.func.value.id == sn and direct.get(n.func.attr):
+                    direct[name] = changed = True
+                    break
+    return {k for k, v in direct.items() if v}
+
+
+def _reject_leaves_state(prog, cname):
+    """Every method of the class with a refusing arm (the arm only warns / raises): no attribute of self has been written on
+    the way to that arm - a refused request must leave the limits in force exactly as they were."""
+    ci = prog.cls(cname)
+    rel = ci.module.relpath
+    writers = _self_writers(prog, ci)
+    out = []
+
+    def stores_of(st, sn):
+        hits = []
+        for n in ast.walk(st):
+            if isinstance(n, ast.Attribute) and isinstance(n.value, ast.Name) and n.value.id == sn and isinstance(n.ctx, ast.Store):
+                hits.append(f"{sn}.{n.attr}")
+            if isinstance(n, ast.Call) and isinstance(n.func, ast.Attribute) and isinstance(n.func.value, ast.Name) \
+                    and n.func.value.id == sn and n.func.attr in writers:
+                hits.append(f"{sn}.{n.func.attr}()")
+            if isinstance(n, ast.Call) and U(n.func) == "setattr" and n.args and U(n.args[0]) == sn:
+                hits.append(f"setattr({sn}, ..)")
+        return hits
+
+    def visit(body, prefix, fn, sn, mname):
+        for i, st in enumerate(body):
+            if isinstance(st, ast.If):
+                for arm, other in ((st.body, st.orelse), (st.orelse, st.body)):
+                    if _is_reject_arm(arm):
+                        early = [h for p_ in prefix + body[:i] for h in stores_of(p_, sn)]
+                        out.append(struct_ob(
+                            "reject-leaves-limits", f"{ci.module.name}.{cname}.{mname}", not early,
+                            f"the request is refused at line {arm[0].lineno} (the arm only reports), but {sorted(set(early))} "
+                            f"were already written before the test `{U(st.test)}`: the refused values replace the limits in force "
+                            f"while the limit flags stay as they were", rel, st.lineno, detail=f"L{arm[0].lineno - fn.lineno}",
+                            slots={"test": U(st.test), "writes_before": sorted(set(early))}))
+                visit(st.body, prefix + body[:i], fn, sn, mname)
+                visit(st.orelse, prefix + body[:i], fn, sn, mname)
+            elif isinstance(st, (ast.For, ast.While, ast.With, ast.Try)):
+                for blk in ("body", "orelse", "finalbody"):
+                    visit(getattr(st, blk, []) or [], prefix + body[:i], fn, sn, mname)
+
+    for mname, fn in ci.methods.items():
+        if mname in ("__init__", "load") or not fn.args.args:
+            continue
+        if any(isinstance(d, ast.Name) and d.id in ("staticmethod", "classmethod") for d in fn.decorator_list):
+            continue
+        visit(fn.body, [], fn, fn.args.args[0].arg, mname)
+    return out
+
+
 def _limit_fsm(prog):
     pc = prog.cls("Parameter")
     rel = pc.module.relpath
@@ -487,9 +579,18 @@ def _limit_fsm(prog):
     if fsm.UNKNOWN in init.values():
         raise AnalysisError(f"Parameter.__init__ does not assign constants to {attrs}: {init}")
 
+    # the accepting arm of each validity test in set_boundaries: the one whose sibling only reports (warns / raises)
+    accept_arm = {}
+    for n_ in ast.walk(pc.methods["set_boundaries"]):
+        if isinstance(n_, ast.If):
+            if _is_reject_arm(n_.orelse):
+                accept_arm[U(n_.test)] = True
+            elif _is_reject_arm(n_.body):
+                accept_arm[U(n_.test)] = False
+
     def op_set(s):
         # the valid branch (lower < upper); the invalid branch only warns
-        return m.run(pc.methods["set_boundaries"], s, {}, choose=lambda t: True if U(t) == "lower < upper" else None)
+        return m.run(pc.methods["set_boundaries"], s, {}, choose=lambda t: accept_arm.get(U(t)))
 
     def op_remove(s):
         return m.run(pc.methods["remove_boundaries"], s, {})
